@@ -154,6 +154,8 @@ public:
     _vm->record(EV_SINK_FLUSH, _index);
   }
 
+  int index() const noexcept { return _index; }
+
 private:
   int _index;
   VMBase* _vm;
@@ -640,6 +642,41 @@ struct VM : VMBase
       }
       Lg* g = Fe::get_logger(s->name);
       record(EV_GET_LOGGER, s - slots.data(), g != nullptr, g == s->lg);
+      break;
+    }
+    case OP_GET_SINK:
+    {
+      size_t i = static_cast<size_t>(op.v[0]) % sinks.size();
+      if (sink_type[i] != 0)
+      {
+        break;
+      }
+      // the object in use: the user's reference, or the one a valid logger holds
+      quill::Sink* in_use = sinks[i].get();
+      if (!in_use)
+      {
+        for (auto& sl : slots)
+        {
+          if (sl.valid && ((sl.sink_mask >> i) & 1))
+          {
+            for (auto const& sp : sl.lg->get_sinks())
+            {
+              if (auto* rs = dynamic_cast<RecordingSink*>(sp.get()); rs && rs->index() == static_cast<int>(i))
+              {
+                in_use = sp.get();
+              }
+            }
+          }
+        }
+      }
+      if (!in_use)
+      {
+        break;
+      }
+      std::shared_ptr<quill::Sink> got;
+      QUILL_TRY { got = Fe::get_sink("sink" + std::to_string(i)); }
+      QUILL_CATCH(quill::QuillError const&) {}
+      record(EV_GET_SINK, static_cast<int64_t>(i), got != nullptr, got.get() == in_use);
       break;
     }
     case OP_DROP_SINK_REF:
